@@ -45,7 +45,7 @@ def main():
     ap.add_argument("--jobs", type=int, default=int(os.environ.get("VERIF_JOBS", "8")))
     ap.add_argument("--only", default=None)
     ap.add_argument("--no-replay", action="store_true")
-    ap.add_argument("--keep-going", action="store_true")
+    ap.add_argument("--replay", default=None)
     a = ap.parse_args()
     seed = int(os.environ.get("VERIF_SEED", "0"))
     t0 = time.time()
@@ -54,6 +54,11 @@ def main():
     if spec is None:
         print("unknown or not-applicable property %s" % prop)
         return 2
+    if a.replay:
+        if a.replay.endswith(".json"):
+            from vlib import mircheck
+            return mircheck.replay_file(a.replay)
+        return kani.replay_file(a.replay)
     if spec.get("engine") == "mir":
         from vlib import mircheck
         return mircheck.run(prop, spec, a.tier, seed)
@@ -67,6 +72,7 @@ def main():
         random.Random(seed).shuffle(hs)
     os.makedirs(os.path.join(VERIF, "evidence"), exist_ok=True)
     os.makedirs(kani.WORK, exist_ok=True)
+    kani.lock_work()
     print("[%s] tier=%s harnesses=%d jobs=%d" % (prop, a.tier, len(hs), a.jobs), flush=True)
     try:
         found, build_s = kani.codegen(spec["filters"], log=os.path.join(kani.WORK, "codegen.%s.log" % prop))
